@@ -51,6 +51,14 @@ PROPS = {
         "assumptions": ["sort.Slice returns a sorted permutation of its input (modelled by List.mergeSort; the result is unique because relLess is a total order)",
                         "Go map with Rel keys is a set of Rel values (modelled by a duplicate-free list)"],
     },
+    "C20": {
+        "theorems": ["C20_reject", "C20_accept_build", "C20_type_exact", "C20_accept_safe", "C20_zero_WT", "C20_fields_not_ID"],
+        "facts": ["Facts.checkAttrTypes: the attribute type names accepted by Check, regenerated (checkAttrTypes_iff is a decide-checked obligation)"],
+        "suites": [("structs", 2500, 80000)],
+        "level_text": "Over an explicit model of a Go struct declaration with tags (field name, Go type among the 28 attribute types / []string / unsupported, json tag, api tag) the theorems cover every declaration, unbounded: if Check rejects, BuildType errs and Wrap panics (C20_reject); if it accepts, BuildType and Wrap succeed and agree on name, attributes and relationships (C20_accept_build); the built type has exactly the tagged attributes and relationships with the kinds, nullability, cardinality, target and inverse the tags and Go types declare (C20_type_exact); and on an accepted struct every Get (with the type assertions marshaling makes), every well-typed Set with read-back and frame, Set/Get of the ID, New and Copy succeed without panic and keep the wrapper well-typed (C20_accept_safe). Correspondence runs Check/BuildType/Wrap and a use-script (Get/Set every declared field, id, Copy, New) on reflect.StructOf shapes from a tag/type grammar, by value and by pointer, against the model; the Go side also runs MarshalResource under recover.",
+        "level_note": "Trusted: Lean kernel; standard axioms; mirror of helpers.go Check/BuildType/IDAndType and wrapper.go Wrap/Get/Set/getField/setField/Copy/New (reflect's reading of struct types is abstracted into StructDecl; validated by correspondence on ~25k generated shapes per quick run); hypothesis SingleID (Go forbids two fields named ID). Unexported and embedded fields are outside the model (the property speaks of exported fields).",
+        "assumptions": ["reflect reports field order, names, types and tags as declared", "at most one field is named ID (Go language rule)"],
+    },
 }
 
 # Properties not (yet) claimed. Each entry: reason. Kept current by hand; a property
